@@ -5,7 +5,7 @@ import json
 import os
 import subprocess
 import sys
-from typing import Any, Dict, List
+from typing import Any, Dict, List, Tuple
 
 import numpy as np
 
@@ -87,7 +87,15 @@ RULE = ("cases = (backend function, record(s), L, start vector incl. repeated/un
         "signs x fractional low bin | low integer bin | anywhere | 0 | pi x 6 Numba + 6 NumPy (+ 6 CUDA-simulator on the 1e5 records) functions, and "
         "compute_single_bin on such records (numpy, numba; orders -1..2; auto, cross; by L / by resolution; method / module wrapper): for orders >= 0 EVERY case "
         "of EVERY stream is also held to the budget of the per-segment evaluation (seg_tight_tol); there non-trivial = that budget < 1e-3 of the raw-magnitude "
-        "budget (an error that scales with the level or the running sum of the record instead of the detrended segment would be seen)")
+        "budget (an error that scales with the level or the running sum of the record instead of the detrended segment would be seen); "
+        "PLUS structured start vectors (the statistics are those of EXACTLY the given starts): arithmetic progressions s0 + k*hop (hop 2 .. 2L) with one / two "
+        "interior entries displaced (+-1 | within a hop | up to 3 hops; mostly at positions 2 .. K-2, so first hop, end point and K are those of the progression), "
+        "permuted interior + one displaced, an entry replaced by its neighbour, first hop (last hop) = mean hop with everything in between arbitrary, "
+        "round(k*shift) grids (shift near-integer | generic) with one entry off by one, last / first entry displaced, displaced + fully permuted, decreasing "
+        "(+ displaced), two different hops; controls: the progression itself, the rounded grid, the decreasing progression; x K in {3, 4, 5, 7, 16, 33} x "
+        "6 Numba + 6 NumPy functions (+ CUDA simulator on some), NumPy vs Numba within twice the budget, and SpectrumAnalyzer(..., backend = numpy | numba, "
+        "scheduler = <callable returning a five-bin plan of such vectors>).compute() (orders -1..2, auto, cross) against the definition on the plan's own "
+        "starts; non-trivial = distinct (family, K) whose vector has the intended shape (irregular / progression), measured per run")
 
 NUMBA = ["_stats_win_only_auto", "_stats_win_only_csd", "_stats_detrend0_auto", "_stats_detrend0_csd", "_stats_poly_auto", "_stats_poly_csd"]
 U = 2.0 ** -53
@@ -1179,6 +1187,320 @@ def analyzer_long_stream(ctx, P: C.Part, rng: np.random.Generator, intensive: bo
                       "levels": a["long"]["levels"], "fluct": a["long"]["fluct"], "shapes": a["long"]["shapes"]})
 
 
+# ---------------------------------------------------------------- structured start vectors: "the statistics are those of EXACTLY the given starts"
+# (seeded defect C01i: a constant-hop shortcut that judges regularity of `starts` from its first two entries and the last one, and its family: from the
+# last two and the first, from the first three, from min / max / K, from the mean hop, from a rounded k*shift grid ...)
+ST_K = [3, 4, 5, 7, 16, 33]
+ST_FAMS = ["regular", "perturb1", "perturb2", "perm-interior+perturb", "repeat-neighbour", "first-hop-mean", "last-hop-mean", "round-near-off-by-one",
+           "round-generic-off-by-one", "round-grid", "tail-off", "head-off", "perturb+perm-all", "decreasing", "decreasing+perturb", "two-hops"]
+ST_CONTROLS = ("regular", "round-grid", "decreasing")
+
+
+def _delta(rng: np.random.Generator, hop: int) -> int:
+    """a non-zero displacement: +-1 | within a hop | up to three hops"""
+    m = int(rng.integers(0, 3))
+    d = 1 if m == 0 else int(rng.integers(1, max(2, hop))) if m == 1 else int(rng.integers(1, 3 * hop + 1))
+    return d if rng.random() < 0.5 else -d
+
+
+def structured_starts(rng: np.random.Generator, fam: str, K: int, L: int) -> np.ndarray:
+    """a start vector (all entries >= 0; the caller sizes the record so that every start is in range) built from the arithmetic progression
+    s0 + k*hop, k < K, hop in 2 .. 2L (overlapping, back to back, with gaps): see ST_FAMS. `deep` = the positions 2 .. K-2 whose change leaves the first
+    hop, the last hop's end point and K as they are (for K = 3 the only interior position is 1)."""
+    hop = int(rng.integers(2, 2 * L + 1))
+    s0 = int(rng.integers(0, 6))
+    s = s0 + hop * np.arange(K, dtype=np.int64)
+    interior = list(range(1, K - 1))
+    deep = list(range(2, K - 1)) or interior
+
+    def perturb(v, idxs):
+        for ix in idxs:
+            b = int(v[ix])
+            for _ in range(20):
+                nv = max(0, b + _delta(rng, hop))
+                if nv != b:
+                    v[ix] = nv
+                    break
+        return v
+    if fam == "regular":
+        pass
+    elif fam == "perturb1":
+        perturb(s, [int(rng.choice(deep if rng.random() < 0.75 else interior))])
+    elif fam == "perturb2":
+        pool = deep if len(deep) >= 2 else interior
+        perturb(s, [int(v) for v in rng.choice(pool, size=min(2, len(pool)), replace=False)])
+    elif fam == "perm-interior+perturb":      # a permuted progression alone is the same multiset (the statistics do not depend on the order): one entry moves too
+        pool = deep if len(deep) >= 2 else interior
+        s[pool] = s[pool][rng.permutation(len(pool))]
+        perturb(s, [int(rng.choice(pool))])
+    elif fam == "repeat-neighbour":           # an entry replaced by its neighbour's value (incl. the last but one by the last: [.., e, e])
+        ix = int(rng.choice(deep if rng.random() < 0.75 else interior))
+        s[ix] = s[ix + 1] if rng.random() < 0.5 else s[ix - 1]
+    elif fam == "first-hop-mean":             # first hop = mean hop = (last - first) / (K-1), everything in between arbitrary (sorted or not)
+        if K >= 4:
+            mid = rng.integers(0, int(s[-1]) + hop + 1, size=K - 3)
+            s[2:K - 1] = np.sort(mid) if rng.random() < 0.5 else mid
+    elif fam == "last-hop-mean":              # mirrored: last hop = mean hop
+        if K >= 4:
+            mid = rng.integers(0, int(s[-1]) + hop + 1, size=K - 3)
+            s[1:K - 2] = np.sort(mid) if rng.random() < 0.5 else mid
+    elif fam in ("round-near-off-by-one", "round-generic-off-by-one", "round-grid"):
+        # the built-in schedulers' grid round(k*shift): shift within 0.5/(K-1) of an integer (the rounded grid IS the progression) or generic
+        frac = float(rng.uniform(0.0, 0.49 / (K - 1))) * (1 if rng.random() < 0.5 else -1) if fam == "round-near-off-by-one" else float(rng.uniform(0.05, 0.95))
+        s = s0 + np.round(np.arange(K) * (hop + frac)).astype(np.int64)
+        if fam != "round-grid":
+            ix = int(rng.choice(deep if rng.random() < 0.75 else interior))
+            s[ix] = max(0, int(s[ix]) + (1 if rng.random() < 0.5 else -1))
+    elif fam == "tail-off":
+        perturb(s, [K - 1])
+    elif fam == "head-off":
+        perturb(s, [0])
+    elif fam == "perturb+perm-all":           # unsorted; min, max and K are (mostly) those of the progression
+        perturb(s, [int(rng.choice(deep))])
+        s = s[rng.permutation(K)]
+    elif fam == "decreasing":
+        s = s[::-1].copy()
+    elif fam == "decreasing+perturb":
+        perturb(s, [int(rng.choice(deep))])
+        s = s[::-1].copy()
+    elif fam == "two-hops":
+        h2 = hop + _delta(rng, hop)
+        h2 = h2 if h2 >= 1 and h2 != hop else hop + 1
+        m = max(1, K // 2)
+        s[m:] = s[m - 1] + h2 * np.arange(1, K - m + 1)
+    else:
+        raise ValueError(fam)
+    return np.ascontiguousarray(s, dtype=np.int64)
+
+
+def starts_shape(s: np.ndarray) -> Tuple[bool, bool]:
+    """(is an arithmetic progression in the given order, first hop > 0 and the last entry extrapolates from the first hop although it is not one)"""
+    s = np.asarray(s, dtype=np.int64)
+    K = len(s)
+    if K < 2:
+        return True, False
+    ap = bool(np.all(np.diff(s) == s[1] - s[0]))
+    return ap, bool((not ap) and s[1] > s[0] and s[-1] == s[0] + (K - 1) * (s[1] - s[0]))
+
+
+def starts_record(rng: np.random.Generator, N: int):
+    """two correlated noise records whose level of fluctuation grows along the record (so that different segments give clearly different statistics),
+    each with its own offset and drift"""
+    t = np.arange(N, dtype=np.float64)
+    env = 1.0 + float(rng.uniform(1.0, 4.0)) * t / max(N, 1)
+    x1 = env * rng.standard_normal(N) + float(rng.choice([0.0, 3.0, -50.0])) + float(rng.choice([0.0, 0.02])) * t
+    x2 = 0.6 * np.roll(x1, 1) + env[::-1] * rng.standard_normal(N) + float(rng.choice([0.0, -7.0]))
+    return np.ascontiguousarray(x1), np.ascontiguousarray(x2)
+
+
+def starts_kernel_case(rng: np.random.Generator, fam: str, K: int, j: int, small: bool = False) -> Dict[str, Any]:
+    L = int(rng.choice([3, 4, 8, 16, int(rng.integers(5, 13 if small else 49))]))
+    starts = structured_starts(rng, fam, K, L)
+    N = int(starts.max()) + L + int(rng.integers(0, L + 1))
+    x1, x2 = starts_record(rng, N)
+    w = [np.hanning(L + 2)[1:-1] + 0.05, np.ones(L), rng.standard_normal(L), np.hanning(L) if L >= 3 else np.ones(L)][j % 4]
+    ok = (j // 4) % 5
+    omega = [2 * np.pi * float(rng.uniform(0.3, L / 2)) / L, 2 * np.pi * int(rng.integers(0, L // 2 + 1)) / L, float(rng.uniform(0.05, 3.0)), 0.0, float(np.pi)][ok]
+    return {"L": L, "N": N, "starts": starts, "w": np.ascontiguousarray(w, dtype=np.float64), "omega": float(min(max(omega, 0.0), np.pi)), "x1": x1, "x2": x2,
+            "omega_class": 30 + ok, "start_mode": 20 + ST_FAMS.index(fam), "kind": "starts:" + fam}
+
+
+def parity(P: C.Part, name: str, c, Q, nb, npv, tol) -> None:
+    """NumPy vs Numba on the same case: both are within `tol` of the definition, so they differ by at most 2 tol (reported only when the comparison with
+    the definition has not already reported the case)"""
+    P.cases += 1
+    P.hit("starts:parity")
+    bad = [i for i in range(5) if not (abs(nb[i] - npv[i]) <= 2.0 * tol[i])]
+    if bad:
+        k = bad[0]
+        P.violations.append(C.Violation(
+            what=f"{name}: NumPy backend gives {STAT[k]} = {npv[k]!r}, Numba backend {nb[k]!r} on the same record, window, omega={c['omega']} and starts "
+                 f"{c['starts'].tolist()[:12]} (L={c['L']}): they differ by {abs(nb[k] - npv[k]):.3g}, twice the rounding budget is {2 * tol[k]:.3g}",
+            signature={"fn": name, "sub": "numpy-vs-numba", "component": k},
+            replay={"case": case_dump(name, c, Q, "numpy"), "numba": list(nb), "numpy": list(npv), "tol": list(tol), "kind": c.get("kind", "generic")}))
+
+
+def starts_stream(ctx, P: C.Part, rng: np.random.Generator, cuda, intensive: bool) -> None:
+    """every family of ST_FAMS x K in ST_K x the six Numba and six NumPy functions (a few through the CUDA simulator) against the definition evaluated on
+    EXACTLY the given starts, and NumPy against Numba. Corpus first: the witnesses of seeded defect C01i."""
+    from speckit.core import _build_Q
+    wit = [[0, 5, 7, 15], [0, 6, 3, 18], [2, 9, 11, 30, 30], [0, 12, 13, 29, 48, 50, 72]]
+    todo: List[Tuple[str, int, Any]] = [("corpus", len(s), np.array(s, dtype=np.int64)) for s in wit]
+    reps = ctx.scale(1, 6) * (2 if intensive else 1)
+    for r in range(reps):
+        for fam in ST_FAMS:
+            for K in ST_K:
+                todo.append((fam, K, None))
+    n_cuda = n_coinc = n_irr = 0
+    for j, (fam, K, given) in enumerate(todo):
+        if ctx.time_left() < 15 or len(P.violations) >= 5:
+            break
+        with_cuda = cuda is not None and given is None and K <= 7 and j % (7 if not (intensive or ctx.thorough) else 3) == 0 and n_cuda < ctx.scale(6, 60)
+        if given is not None:
+            c = starts_kernel_case(rng, "regular", K, j)
+            c.update(starts=given, N=int(given.max()) + c["L"] + 3, kind="starts:corpus", start_mode=19)
+            c["x1"], c["x2"] = starts_record(rng, c["N"])
+        else:
+            c = starts_kernel_case(rng, fam, K, j, small=with_cuda)
+        ap, coinc = starts_shape(c["starts"])
+        n_coinc += coinc
+        n_irr += not ap
+        P.hit(f"starts:{fam}")
+        P.hit(f"starts:K={K}")
+        P.hit("starts:" + ("progression" if ap else "first-hop/end-point coincidence" if coinc else "irregular"))
+        if ap == (fam in ST_CONTROLS or K == 3 and fam in ("first-hop-mean", "last-hop-mean")):
+            P.nontrivial.add(("starts", fam, K))
+        # K <= 7: all six functions on the case; K = 16, 33: three of them, rotating (every function meets every family and every K)
+        names = NUMBA if K <= 7 else [NUMBA[(j + t) % 6] for t in (0, 2, 5)]
+        for name in names:
+            Q = _build_Q(c["L"], 1 + (j + len(name)) % 2) if "poly" in name else None
+            nv = len(P.violations)
+            try:
+                R = reference(name, c, Q)
+                nb = impl_call(name, c, Q)
+                npv = impl_call(name + "_np", c, Q)
+                check_case(P, name, "numba", c, Q, nb, R)
+                check_case(P, name, "numpy", c, Q, npv, R)
+                if len(P.violations) == nv:
+                    parity(P, name, c, Q, nb, npv, R[1])
+                if with_cuda and name == NUMBA[j % 6]:
+                    check_case(P, name, "cuda-sim", c, Q, cuda.call(name, c, Q), R)
+                    n_cuda += 1
+            except InputModified:
+                continue                                                # reported by the generic stream
+            except Exception as ex:
+                P.violations.append(C.Violation(what=f"{name} raised {ex!r} on an in-range case with starts {c['starts'].tolist()[:12]}",
+                                                signature={"fn": name, "raises": True, "sub": "structured-starts"},
+                                                replay={"case": case_dump(name, c, Q, "?"), "error": repr(ex)}))
+        if j in (4, 5):
+            P.sample({"op": "oracle-starts", **case_summary(NUMBA[0], c, None), "family": fam})
+    P.notes.append(f"structured start vectors: {n_irr} irregular vectors, {n_coinc} of them with first hop > 0 and the last start = first + (K-1) * first hop "
+                   f"(a regularity test on the end points alone would accept them); {n_cuda} cases also through the CUDA simulator")
+
+
+def plan_case(rng: np.random.Generator, i: int) -> Dict[str, Any]:
+    """case i of the caller-supplied-plan stream: SpectrumAnalyzer(data, fs, order, win, backend, scheduler=<callable returning the plan>).compute() with
+    five bins, each with its own L, fractional bin number and a structured start vector (families rotate with i; K from ST_K). backend numpy / numba =
+    i % 2, cross = (i // 2) % 2, order = (i // 4) % 4 - 1."""
+    backend = ["numpy", "numba"][i % 2]
+    cross = (i // 2) % 2 == 1
+    order = [-1, 0, 1, 2][(i // 4) % 4]
+    nb = 5
+    fams = [ST_FAMS[(5 * (i // 2) + q) % len(ST_FAMS)] for q in range(nb)]
+    Ks = [ST_K[(i // 2 + q + (i // 12)) % len(ST_K)] for q in range(nb)]
+    Ls = [int(rng.choice([4, 8, 16, 24, int(rng.integers(5, 41))])) for _ in range(nb)]
+    D = [structured_starts(rng, fams[q], Ks[q], Ls[q]) for q in range(nb)]
+    N = max(int(d.max()) + L for d, L in zip(D, Ls)) + int(rng.integers(0, 9))
+    x1, x2 = starts_record(rng, N)
+    fs = float(rng.choice([1.0, 2.0, 10.0, 1000.0, float(rng.uniform(0.1, 1e4))]))
+    b = [float(rng.choice([rng.uniform(0.3, L / 2), float(rng.integers(0, L // 2 + 1))])) for L in Ls]
+    win, psll = [("hann", None), ("kaiser", 60.0), ("hann", None), ("kaiser", 200.0)][int(rng.integers(0, 4))]
+    opts: Dict[str, Any] = {"order": order, "win": win, "backend": backend}
+    if psll is not None:
+        opts["psll"] = psll
+    return {"x": x1, "y": x2 if cross else None, "fs": fs, "opts": opts, "plan": {"L": Ls, "D": [d.tolist() for d in D], "b": b, "fams": fams}}
+
+
+def check_plan(P: C.Part, a: Dict[str, Any]) -> None:
+    """XX, YY, XY, M2 of every bin of compute() under a caller-supplied plan vs the definition evaluated on the plan's OWN (starts, L, f) -- what the
+    scheduler handed over, not what the result reports -- window built independently (_an.window); tolerances as in check_analyzer."""
+    import logging
+    import warnings
+    from . import _an as _AN
+    from speckit.analysis import SpectrumAnalyzer
+    x, y, fs, opts, plan = a["x"], a["y"], float(a["fs"]), dict(a["opts"]), a["plan"]
+    cross = y is not None
+    order = int(opts["order"])
+    Ls = np.array(plan["L"], dtype=np.int64)
+    bb = np.array(plan["b"], dtype=np.float64)
+    f = bb * fs / Ls
+
+    def sched(**kw):
+        Kv = np.array([len(d) for d in plan["D"]], dtype=np.int64)
+        return {"f": f.copy(), "r": fs / Ls, "b": bb.copy(), "L": Ls.copy(), "K": Kv, "navg": Kv.copy(),
+                "D": [np.array(d, dtype=np.int64) for d in plan["D"]], "O": np.zeros(len(Ls))}
+    data = np.vstack([x, y]) if cross else x
+    logging.disable(logging.CRITICAL)
+    try:
+        with warnings.catch_warnings(), np.errstate(all="ignore"):
+            warnings.simplefilter("ignore")
+            res = SpectrumAnalyzer(data, fs, scheduler=sched, **opts).compute()
+            XX, XY, M2 = np.asarray(res.XX, dtype=np.float64), np.asarray(res.XY), np.asarray(res.M2, dtype=np.float64)
+            YY = np.asarray(res.YY, dtype=np.float64) if cross else XX
+    finally:
+        logging.disable(logging.NOTSET)
+    be = str(opts.get("backend"))
+    x2 = y if cross else x
+    for q in range(len(Ls)):
+        L, starts = int(Ls[q]), np.array(plan["D"][q], dtype=np.int64)
+        K = len(starts)
+        om = 2 * np.pi * float(f[q]) / fs
+        w = np.asarray(_AN.window(opts["win"], L, opts.get("psll")), dtype=np.float64)
+        Qref = np.asarray(_AN.poly_basis(L, order), dtype=LD) if order >= 1 else None
+        ext, sx, zmax = direct_ext(x, x2, starts, L, w, om, order, Qref, cross)
+        tol = tolerances(L, om, 0.0, 0.0, x, x2, starts, w, order, None if Qref is None else np.asarray(Qref, dtype=np.float64))
+        if order >= 1:                                                  # projector difference allowed to the library's double-precision QR basis
+            ra = max(float(np.abs(x[int(st):int(st) + L] * w).sum()) for st in starts)
+            rb = max(float(np.abs(x2[int(st):int(st) + L] * w).sum()) for st in starts)
+            pj = 1e-12
+            tol = (tol[0] + pj * ra * ra, tol[1] + pj * rb * rb, tol[2] + pj * ra * rb, tol[3] + pj * ra * rb, tol[4] + 4 * pj * (ra * rb) ** 2)
+        obs = (float(XX[q]), float(YY[q]), float(np.real(XY[q])), float(np.imag(XY[q])), float(M2[q]))
+        fam = plan.get("fams", ["?"] * len(Ls))[q]
+        ap, coinc = starts_shape(starts)
+        P.cases += 1
+        P.hit(f"plan:{be}")
+        P.hit(f"plan:order{order}:{'cross' if cross else 'auto'}")
+        P.hit("plan:" + ("progression" if ap else "first-hop/end-point coincidence" if coinc else "irregular"))
+        P.nontrivial.add(("plan", be, cross, order, fam, K))
+        bad = cmp5(obs, ext, tol)
+        if bad:
+            k = bad[0]
+            P.violations.append(C.Violation(
+                what=f"SpectrumAnalyzer(..., order={order}, win={opts['win']}, backend={be}, scheduler=<callable returning a fixed plan>).compute() "
+                     f"{'cross' if cross else 'auto'} (fs={fs!r}): bin {q} (L={L}, f={float(f[q])!r}, starts {starts.tolist()[:12]}, family {fam}): "
+                     f"{('XX', 'YY', 'Re XY', 'Im XY', 'M2')[k]} = {obs[k]!r} but the definition evaluated on exactly these segments gives {ext[k]!r} (tol {tol[k]:.3g})",
+                signature={"entry": "compute+scheduler", "backend": be, "mode": "cross" if cross else "auto", "order": order, "component": k},
+                replay={"plan_case": plan_dump(a), "bin": q, "observed": obs, "expected": ext}))
+            return
+
+
+def plan_dump(a: Dict[str, Any]) -> Dict[str, Any]:
+    return {"x": np.asarray(a["x"]).tolist(), "y": None if a["y"] is None else np.asarray(a["y"]).tolist(), "fs": float(a["fs"]), "opts": dict(a["opts"]),
+            "plan": {"L": [int(v) for v in a["plan"]["L"]], "D": [[int(v) for v in d] for d in a["plan"]["D"]], "b": [float(v) for v in a["plan"]["b"]],
+                     "fams": list(a["plan"].get("fams", []))}}
+
+
+def plan_load(d: Dict[str, Any]) -> Dict[str, Any]:
+    a = {"x": np.array(d["x"], dtype=np.float64), "y": None if d["y"] is None else np.array(d["y"], dtype=np.float64), "fs": d["fs"], "opts": dict(d["opts"]),
+         "plan": dict(d["plan"])}
+    if not a["plan"].get("fams"):
+        a["plan"]["fams"] = ["?"] * len(a["plan"]["L"])
+    return a
+
+
+def plan_stream(ctx, P: C.Part, rng: np.random.Generator, intensive: bool) -> None:
+    n = ctx.scale(48, 384) * (2 if intensive else 1)
+    for i in range(-1, n):
+        if ctx.time_left() < 12 or len(P.violations) >= 5:
+            break
+        a = plan_case(rng, max(i, 0))
+        if i < 0:                                                       # corpus: the plan of the C01i demonstration (numpy, cross, order 0, Hann)
+            a = plan_case(rng, 2)
+            a["opts"] = {"order": 0, "win": "hann", "backend": "numpy"}
+            a["plan"] = {"L": [24, 24, 16, 32], "D": [[0, 8, 16, 24], [0, 5, 7, 15], [1, 7, 40, 19], [3, 9, 50, 64, 27]], "b": [3.0, 4.37, 2.5, 6.0], "fams": ["corpus"] * 4}
+            a["x"], a["y"] = starts_record(rng, 120)
+        try:
+            check_plan(P, a)
+        except Exception as ex:
+            P.violations.append(C.Violation(
+                what=f"SpectrumAnalyzer(..., scheduler=<callable returning an in-range plan>).compute() raised {ex!r} (opts {a['opts']}, L={a['plan']['L']}, "
+                     f"N={len(a['x'])}, D={[d[:8] for d in a['plan']['D']]})",
+                signature={"entry": "compute+scheduler", "raises": True}, replay={"plan_case": plan_dump(a), "error": repr(ex)}))
+        if i == 0:
+            P.sample({"op": "oracle-plan", "N": len(a["x"]), "fs": a["fs"], "opts": a["opts"], "L": a["plan"]["L"], "D": [d[:8] for d in a["plan"]["D"]],
+                      "families": a["plan"]["fams"]})
+
+
 def oracle(ctx, intensive: bool = False, hints: List[Dict[str, Any]] = ()) -> C.Part:
     """the property itself on the real implementation: every backend's 5-tuple vs the direct windowed DFT"""
     P = C.Part()
@@ -1273,6 +1595,12 @@ def oracle(ctx, intensive: bool = False, hints: List[Dict[str, Any]] = ()) -> C.
         except Exception as ex:
             P.violations.append(C.Violation(what=f"{name} / _build_Q(L={L}, order={order}) raised {ex!r}", signature={"fn": name, "raises": True, "sub": "trend-is-least-squares"},
                                             replay={"L": L, "order": order, "error": repr(ex)}))
+    # structured start vectors (progressions with perturbed / permuted / repeated interior entries, rounded grids off by one, controls): kernels of all
+    # backends and compute() under a caller-supplied plan. Own child generator derived from the run's seed WITHOUT drawing from ctx.rng (the streams
+    # below keep the cases they had).
+    srng = np.random.default_rng([int(getattr(ctx, "seed", 0)) & 0x7FFFFFFF, 0xC01, 9])
+    starts_stream(ctx, P, srng, cuda, intensive)
+    plan_stream(ctx, P, srng, intensive)
     # near-identical-segment records: kernels (Numba, NumPy, CUDA simulator) and the public single-bin entry on both backends. Their random choices
     # come from a child generator seeded by ONE integer drawn here, after everything above.
     lrng = np.random.default_rng(int(ctx.rng.integers(0, 2 ** 31 - 1)))
@@ -1299,6 +1627,9 @@ def replay(ctx, data) -> C.Part:
         if "analyzer" in v["replay"]:          # public single-bin entry on a near-identical-segment record
             check_analyzer(P, analyzer_load(v["replay"]["analyzer"]))
             continue
+        if "plan_case" in v["replay"]:         # compute() under a caller-supplied plan
+            check_plan(P, plan_load(v["replay"]["plan_case"]))
+            continue
         if "case" not in v["replay"]:
             continue
         cd = v["replay"]["case"]
@@ -1319,6 +1650,15 @@ def replay(ctx, data) -> C.Part:
             cu.close()
         else:
             imp = impl_call(name + ("_np" if be == "numpy" else ""), c, Q)
+        if "numba" in v["replay"] and "numpy" in v["replay"]:      # NumPy vs Numba on the same case (and each against the definition)
+            R = reference(name, c, Q)
+            nb, npv = impl_call(name, c, Q), impl_call(name + "_np", c, Q)
+            nv = len(P.violations)
+            check_case(P, name, "numba", c, Q, nb, R)
+            check_case(P, name, "numpy", c, Q, npv, R)
+            if len(P.violations) == nv:
+                parity(P, name, c, Q, nb, npv, R[1])
+            continue
         if "order" in v["replay"]:          # trend-is-least-squares: the reference uses an independently built polynomial basis, not the stored Q
             from . import _an as _AN
             order = int(v["replay"]["order"])
